@@ -38,6 +38,8 @@ where
     #[inline]
     fn process(&mut self, el: StreamElement<A::In>) -> Self::Output {
         let ts = Instant::now();
+        #[cfg(feature = "verif")]
+        let ts = crate::verif::now(ts);
 
         let ret = match &self.w {
             Some(slot) if ts - slot.last > self.gap => {
